@@ -197,6 +197,11 @@ class Segment(CoreSummaries, Contract):
                 return z3.Length(ret) == 0
             cl.append(Clause('C03.coroutine_suspends_on_what_it_has_just_emitted', ['C03', 'C02'], fn=awaited_at_yield, when='yield',
                              note='a coroutine that emits and then awaits something else (or nothing) does not wait for its consumers'))
+        if getattr(self, 'method', None) == 'cb':
+            # the forwarding coroutine of a node (buffer, delay, latest, timed_window, ...) is scheduled once, by the constructor
+            cl.append(Clause('C02.the_forwarding_coroutine_never_exits', ['C02', 'C14', 'C13', 'C08', 'C03'], when='return_or_gen_return', text='False',
+                             note='nothing ever starts the forwarder again: once it has returned, whatever the node receives afterwards '
+                                  '(new arrivals, a re-attached input, elements still queued) is never delivered'))
         if self.data_fields and self.reentrancy_generic:
             cl.append(Clause('C01.state_is_final_before_every_emission', ['C01', 'C02', 'C05', 'C08'], fn=self.generic_reentrancy(),
                              when='normal', kind='reentrancy',
